@@ -309,6 +309,10 @@ func (r *run) faultReply(req *fakekafka.Request, op *Op) *fakekafka.Reply {
 		}
 	}
 	rep := req.Broker.Handle(req)
+	if req.ApiKey == fakekafka.ApiVersions && f.Err != 0 && len(rep.Body) >= 2 {
+		// the error code of an ApiVersions response is its first field; the list of versions follows it all the same
+		rep.Body = append([]byte{byte(uint16(f.Err) >> 8), byte(f.Err)}, rep.Body[2:]...)
+	}
 	if f.Cut != nil {
 		rep.CutAt = *f.Cut
 	}
